@@ -272,14 +272,15 @@ async def cancelled_read_case(ctx, stream: bytes, pattern: list[str], engine: st
     judge_reads(ctx, case, stream, False, results)
 
 
-async def tcp_case(ctx, stream: bytes, chunk_sizes: list[int], writes: list[str], fault: str | None) -> None:
-    """(b) real loopback server."""
+async def tcp_case(ctx, stream: bytes, chunk_sizes: list[int], writes: list[str], fault: str | None,
+                   host: str = "127.0.0.1") -> None:
+    """(b) real loopback server (IPv4 loopback, IPv6 loopback or the name `localhost`)."""
     from aiomysensors.transport.tcp import TCPTransport
 
     received = bytearray()
     done = asyncio.Event()
     case = {"engine": "tcp", "stream": stream.hex() if len(stream) < 2000 else f"<{len(stream)} bytes>",
-            "chunks": chunk_sizes[:20], "writes": writes[:5], "fault": fault}
+            "chunks": chunk_sizes[:20], "writes": writes[:5], "fault": fault, "host": host}
 
     async def handler(reader, writer) -> None:
         try:
@@ -308,11 +309,19 @@ async def tcp_case(ctx, stream: bytes, chunk_sizes: list[int], writes: list[str]
             done.set()
             writer.close()
 
-    server = await asyncio.start_server(handler, "127.0.0.1", 0)
+    server = await asyncio.start_server(handler, host if host != "localhost" else None, 0)
     port = server.sockets[0].getsockname()[1]
-    transport = TCPTransport("127.0.0.1", port)
+    if host == "localhost":  # both families listen; the port numbers may differ, take the first socket's family
+        host_for_client = "::1" if server.sockets[0].family == socket.AF_INET6 else "127.0.0.1"
+        ctx.obs("localhost-served-as:" + host_for_client)
+    transport = TCPTransport(host, port) if host != "localhost" else TCPTransport(host_for_client, port)
     try:
-        await transport.connect()
+        try:
+            await transport.connect()
+        except Exception as exc:  # noqa: BLE001 - the server is listening: nothing can refuse this connection
+            ctx.violation("connect-raises", f"connect to a listening server on {host!r} raised {type(exc).__name__}: {exc!s:.80}",
+                          case)
+            return
         expected = reference(stream, True)
         results: list[tuple[str, object]] = []
         for _ in range(len(expected) + 1):
@@ -1063,7 +1072,8 @@ def run_case(ctx, case: dict) -> None:
     if case.get("engine") == "streamreader" and not str(case["stream"]).startswith("<"):
         arun(reader_case(ctx, bytes.fromhex(case["stream"]), tuple(case["cuts"]), case["eof"]))
     elif case.get("engine") == "tcp" and not str(case["stream"]).startswith("<"):
-        arun(tcp_case(ctx, bytes.fromhex(case["stream"]), case["chunks"], case["writes"], case.get("fault")))
+        arun(tcp_case(ctx, bytes.fromhex(case["stream"]), case["chunks"], case["writes"], case.get("fault"),
+                      case.get("host", "127.0.0.1")))
     elif str(case.get("engine", "")).startswith("cancelled-read-"):
         arun(cancelled_read_case(ctx, bytes.fromhex(case["stream"]), case["pattern"], case["engine"].split("-", 2)[2]))
     elif case.get("engine") == "tcp-backpressure":
@@ -1132,6 +1142,19 @@ def run(ctx) -> None:
                 sizes = [rng.choice([1, 2, 3, 7, 64, 1000, 65536]) for _ in range(rng.randint(1, 8))]
                 fault = "reset-after-stream" if i % 5 == 0 else None
                 arun(tcp_case(ctx, stream, sizes, length_sweep_writes(rng) if i % 7 == 3 else random_writes(rng), fault))
+            # address families: IPv6 loopback where the machine has it (peer addresses are 4-tuples there)
+            try:
+                probe6 = socket.socket(socket.AF_INET6)
+                probe6.bind(("::1", 0))
+                probe6.close()
+                hosts = ["::1", "localhost"]
+            except OSError as err:
+                hosts = []
+                ctx.skip("ipv6-loopback", str(err))
+            for i, host in enumerate(hosts * 3):
+                if ctx.mine(i):
+                    ctx.clause("tcp-over-" + ("ipv6" if host == "::1" else "localhost"))
+                    arun(tcp_case(ctx, random_stream(rng), [rng.choice([1, 7, 65536])], random_writes(rng), None, host=host))
             for i, stream in enumerate(dictionary_streams(ctx)):
                 if ctx.mine(i):
                     ctx.clause("dictionary-stream")
